@@ -139,7 +139,7 @@ func accountsMergeSteps(c accountsCase) []Step {
 	own.Accounts.Groups = append([]types.Group{}, full.Accounts.Groups[kg:]...)
 	err := inc.MergeInto(&own)
 	var steps []Step
-	mk := func(what string, k int, declared, got []string) {
+	mk := func(what string, k int, declared, got, human []string) {
 		g := strings.Join(got, "|")
 		if err != nil {
 			g = "err"
@@ -155,26 +155,29 @@ func accountsMergeSteps(c accountsCase) []Step {
 		steps = append(steps, Step{
 			Line:    "acc.merge\t" + fmt.Sprint(k) + "\t" + strings.Join(declared, "\t"),
 			Go:      g,
-			Desc:    fmt.Sprintf("ImageConfiguration.MergeInto: %s, the first %d of %d declared by the included configuration: %s", what, k, len(declared), strings.Join(declared, " ")),
+			Desc:    fmt.Sprintf("ImageConfiguration.MergeInto: %s, the first %d of %d declared by the included configuration: %s", what, k, len(declared), strings.Join(human, "; ")),
 			Tags:    []string{"merge:" + what + ":" + rep},
 			Trivial: len(declared) == 0,
 		})
 	}
-	var dm, gm, du, gu, dg, gg, dv, gv []string
+	var dm, gm, du, gu, dg, gg, dv, gv, hm, hu, hg []string
 	for _, m := range c.Muts {
 		dm = append(dm, m.token())
+		hm = append(hm, m.desc())
 	}
 	for _, m := range own.Paths {
 		gm = append(gm, accountsMut{Path: m.Path, Type: m.Type, UID: m.UID, GID: m.GID, Perms: m.Permissions, Source: m.Source, Recursive: m.Recursive}.token())
 	}
 	for _, u := range c.Users {
 		du = append(du, u.token())
+		hu = append(hu, fmt.Sprintf("user %s uid=%d", u.Name, u.UID))
 	}
 	for _, u := range own.Accounts.Users {
 		gu = append(gu, accountsUser{Name: u.UserName, UID: u.UID, GID: u.GID, Shell: u.Shell, Home: u.HomeDir}.token())
 	}
 	for _, g := range c.Groups {
 		dg = append(dg, g.token())
+		hg = append(hg, fmt.Sprintf("group %s gid=%d members=%v", g.Name, g.GID, g.Members))
 	}
 	for _, g := range own.Accounts.Groups {
 		gg = append(gg, accountsGroup{Name: g.GroupName, GID: g.GID, Members: g.Members}.token())
@@ -185,10 +188,10 @@ func accountsMergeSteps(c accountsCase) []Step {
 	for _, v := range own.Volumes {
 		gv = append(gv, hx(v))
 	}
-	mk("paths", km, dm, gm)
-	mk("users", ku, du, gu)
-	mk("groups", kg, dg, gg)
-	mk("volumes", km, dv, gv)
+	mk("paths", km, dm, gm, hm)
+	mk("users", ku, du, gu, hu)
+	mk("groups", kg, dg, gg, hg)
+	mk("volumes", km, dv, gv, vols)
 	return steps
 }
 
